@@ -13,7 +13,11 @@
       an unknown I/O class, a CPU list mixing usable and unusable CPUs, limits the caller is
       not privileged to set …) is `unconstrained`.
 
-  Import-free apart from the shared type definitions of Model/C18.lean.
+  Import-free apart from the shared TYPE definitions of Model/C18.lean (`Kernel`, `PState`, `Req`,
+  `PyReq`, `Out`) and of `PyReq.erase` / `Scalar.val` (the value an argument denotes: `True` is 1, an
+  enum member is its value, a tuple / set / range is its elements — how the statement's "value" is read
+  off a Python object; that the CODE treats the forms alike is `C18_arg_form_irrelevant` and is checked
+  with real objects by the harness).
 -/
 import PsutilModel.Model.C18
 namespace Psutil.C18.Spec
@@ -27,6 +31,7 @@ inductive Verdict
 def replaced (k : Kernel) (pid : Nat) (st' : PState) (e : Eff) : Kernel :=
   { procs := fun q => if q = pid then some st' else k.procs q
     self := k.self, ncpu := k.ncpu, statCpus := k.statCpus, nrOpen := k.nrOpen, capResource := k.capResource
+    capNice := k.capNice
     log := k.log ++ [e] }
 
 /-- CPUs that exist and that the process is allowed to run on, ascending -/
@@ -70,10 +75,10 @@ def expect (k : Kernel) (pid : Nat) (st : PState) : Req → Verdict
     else .unconstrained
   | .ionice none (some _) => .promised (.exc .valueError) k          -- a level without a class
   | .ionice (some cls) value =>
-    if 0 ≤ cls ∧ cls ≤ 3 then
-      let level := value.getD 0
-      if level < 0 ∨ level > 7 then .promised (.exc .valueError) k    -- level outside 0-7
-      else if (cls = 0 ∨ cls = 3) ∧ level ≠ 0 then .promised (.exc .valueError) k  -- idle/none take no level
+    let level := value.getD 0
+    if level < 0 ∨ level > 7 then .promised (.exc .valueError) k      -- level outside 0-7, whatever the class
+    else if 0 ≤ cls ∧ cls ≤ 3 then
+      if (cls = 0 ∨ cls = 3) ∧ level ≠ 0 then .promised (.exc .valueError) k  -- idle/none take no level
       else
         let v := ioprioValue cls.toNat level.toNat
         .promised (.ok .none) (replaced k pid { st with ioprio := v } (.ioprio pid v))
@@ -86,7 +91,7 @@ def expect (k : Kernel) (pid : Nat) (st : PState) : Req → Verdict
     else if cpus.all fun c => decide (0 ≤ c) && (eligible k st).contains c.toNat then
       let a := ascending k (cpus.map Int.toNat)
       .promised (.ok .none) (replaced k pid { st with affinity := a } (.affinity pid a))
-    else if cpus.all fun c => fitsCLong c && isNonexistentOrIneligible k st c then
+    else if cpus.all fun c => isNonexistentOrIneligible k st c then
       .promised (.exc .valueError) k                                  -- only unusable CPUs
     else .unconstrained
   | .rlimit res none =>
@@ -112,6 +117,28 @@ def expect (k : Kernel) (pid : Nat) (st : PState) : Req → Verdict
       else .unconstrained
     | _ => .promised (.exc .valueError) k                             -- not a pair
 
+/-- Is the caller permitted to make this request on this process? Written from the EPERM / EACCES
+    sections of setpriority(2), ioprio_set(2), sched_setaffinity(2) and prlimit(2): reading niceness,
+    I/O priority and affinity needs nothing; changing a process of another user needs CAP_SYS_NICE;
+    lowering the nice value needs CAP_SYS_NICE or room under the process's RLIMIT_NICE
+    (`20 - value ≤ soft limit`); the realtime I/O class needs CAP_SYS_NICE; reading or changing the
+    limits of a process of another user needs CAP_SYS_RESOURCE. The statement speaks about
+    *successful* sets: where the caller is not permitted nothing is promised. -/
+def permitted (k : Kernel) (st : PState) : Req → Bool
+  | .nice none => true
+  | .nice (some v) =>
+    (!st.foreign || k.capNice) &&
+      (k.capNice || decide (st.nice ≤ v) || decide (20 - v ≤ ((st.rlimits 13).1 : Int)))
+  | .ionice none _ => true
+  | .ionice (some cls) _ => (!st.foreign || k.capNice) && (k.capNice || decide (cls ≠ 1))
+  | .cpuAffinity none => true
+  | .cpuAffinity (some _) => !st.foreign || k.capNice
+  | .rlimit _ _ => !st.foreign || k.capResource
+
+/-- what the property promises to the caller of this world: `expect` where the caller is permitted -/
+def expectP (k : Kernel) (pid : Nat) (st : PState) (req : Req) : Verdict :=
+  if permitted k st req then expect k pid st req else .unconstrained
+
 /-- The same for a call whose arguments are Python objects. The statement speaks about values — an
     I/O class IS one of the `IOPRIO_CLASS_*` constants (enum members), a CPU list, a pair of limits —
     so an int-like scalar counts as its value and a tuple / list / set / range as its elements. It
@@ -120,6 +147,6 @@ def expect (k : Kernel) (pid : Nat) (st : PState) : Req → Verdict
 def expectPy (k : Kernel) (pid : Nat) (st : PState) : PyReq → Verdict
   | .cpuAffinity (some (.iterator, [])) => .unconstrained
   | .rlimit _ (some (.iterator, _)) => .unconstrained
-  | r => expect k pid st r.erase
+  | r => expectP k pid st r.erase
 
 end Psutil.C18.Spec
